@@ -1,6 +1,7 @@
 /-
   C01 — equations of the compiler model in projection form, and the frame lemma: compiling a
-  term of the fragment only appends to the table (placeholders are filled before returning).
+  term (any term of the language) only appends to the table (placeholders are filled before
+  returning).
 -/
 import JaqVerif.Lemmas.C01Rel
 import JaqVerif.Core.Fragment
@@ -20,8 +21,6 @@ theorem term_id : term cx loc tr .id st = (.id, [], st) := by rw [term]
 theorem term_num (s) : term cx loc tr (.num s) st = (numC s, [], st) := by rw [term]
 theorem term_var (x) : term cx loc tr (.var x) st = ((varC loc x st).1, [], (varC loc x st).2) := by rw [term]
 theorem term_brk (x) : term cx loc tr (.brk x) st = ((breakC loc x st).1, [], (breakC loc x st).2) := by rw [term]
-theorem term_str1 (s) : term cx loc tr (.str none [.lit s]) st = (.str s, [], (st.insert .toString).2) := by
-  rw [term]; simp [compileStrParts, sumOr]
 theorem term_neg (t) : term cx loc tr (.neg t) st =
     (.neg (it cx loc [] t st).1, [], (it cx loc [] t st).2.2) := by rw [term]; rfl
 theorem term_arr (t) : term cx loc tr (.arr (some t)) st =
@@ -31,11 +30,6 @@ theorem term_label (x t) : term cx loc tr (.label x t) st =
 theorem term_pipe_none (l r) : term cx loc tr (.pipe l none r) st =
     (.pipe (it cx loc [] l st).1 none (it cx loc tr r (it cx loc [] l st).2.2).1,
       (it cx loc tr r (it cx loc [] l st).2.2).2.1, (it cx loc tr r (it cx loc [] l st).2.2).2.2) := by
-  rw [term]; rfl
-theorem term_pipe_var (l x r) : term cx loc tr (.pipe l (some (.var x)) r) st =
-    (.pipe (it cx loc [] l st).1 (some .var) (it cx (loc.pushBind (.var x)) tr r (it cx loc [] l st).2.2).1,
-      (it cx (loc.pushBind (.var x)) tr r (it cx loc [] l st).2.2).2.1,
-      (it cx (loc.pushBind (.var x)) tr r (it cx loc [] l st).2.2).2.2) := by
   rw [term]; rfl
 theorem term_comma (l r) : term cx loc tr (.binop l .comma r) st =
     (.comma (it cx loc tr l st).1 (it cx loc tr r (it cx loc tr l st).2.2).1,
@@ -71,20 +65,6 @@ theorem term_try (f c) : term cx loc tr (.tryCatch f (some c)) st =
       (it cx loc [] c (it cx loc [] f st).2.2).2.2) := by
   rw [term]; rfl
 
-theorem term_ite1_none (c t) : term cx loc tr (.ite [(c, t)] none) st =
-    (let a := it cx loc [] c st
-     let b := it cx loc tr t a.2.2
-     let ie := b.2.2.insert .id
-     (.ite a.1 b.1 ie.1, Tr.union b.2.1 [], ie.2)) := by
-  rw [term]; simp only [compileIts]; rfl
-theorem term_ite1_some (c t e) : term cx loc tr (.ite [(c, t)] (some e)) st =
-    (let a := it cx loc [] c st
-     let b := it cx loc tr t a.2.2
-     let ce := term cx loc tr e b.2.2
-     let ie := ce.2.2.insert ce.1
-     (.ite a.1 b.1 ie.1, Tr.union b.2.1 ce.2.1, ie.2)) := by
-  rw [term]; simp only [compileIts]; rfl
-
 theorem term_defs (ds t) : term cx loc tr (.defs ds t) st =
     term cx (compileDefs cx loc tr ds st).1 tr t (compileDefs cx loc tr ds st).2 := by rw [term]
 theorem term_call (name args) : term cx loc tr (.call name args) st =
@@ -101,30 +81,161 @@ theorem compileDefs_cons (name params body ds) : compileDefs cx loc tr (.mk name
      compileDefs cx (loc.pushSibling name (sigOf params) st.terms.length b.2.1) tr ds (b.2.2.set st.terms.length b.1)) := by
   rw [compileDefs]
 
-theorem term_fold_var (name xs x init update rest) :
-    term cx loc tr (.fold name xs (.var x) (init :: update :: rest)) st =
-    (let a := it cx loc [] xs st
-     let b := it cx loc [] init a.2.2
-     let c := it cx (loc.pushBind (.var x)) [] update b.2.2
-     match rest with
-     | [] =>
-       if name = "reduce" then (.fold a.1 .var b.1 c.1 .reduce, [], c.2.2)
-       else if name = "foreach" then (.fold a.1 .var b.1 c.1 (.foreach none), [], c.2.2)
-       else (.id, [], c.2.2.fail name)
-     | [proj] =>
-       if name = "foreach" then
-         (.fold a.1 .var b.1 c.1 (.foreach (some (it cx (loc.pushBind (.var x)) tr proj c.2.2).1)),
-           (it cx (loc.pushBind (.var x)) tr proj c.2.2).2.1, (it cx (loc.pushBind (.var x)) tr proj c.2.2).2.2)
-       else (.id, [], c.2.2.fail name)
-     | _ => (.id, [], c.2.2.fail name)) := by
-  rw [term]; simp only [pattern]
-  cases rest with
-  | nil => rfl
-  | cons p rest => cases rest <;> rfl
 theorem term_fold_short0 (name xs pat) : term cx loc tr (.fold name xs pat []) st = (.id, [], st.fail name) := by
   rw [term]; intro a b c h; cases h
 theorem term_fold_short1 (name xs pat a) : term cx loc tr (.fold name xs pat [a]) st = (.id, [], st.fail name) := by
   rw [term]; intro a b c h; cases h
+
+
+theorem term_recurse : term cx loc tr .recurse st = (.recurse, [], st) := by rw [term]
+theorem term_arr_none : term cx loc tr (.arr none) st =
+    (.arr (itermEmpty cx loc st).1, [], (itermEmpty cx loc st).2) := by rw [term]
+theorem term_try_none (f) : term cx loc tr (.tryCatch f none) st =
+    (.tryCatch (it cx loc [] f st).1 (itermEmpty cx loc (it cx loc [] f st).2.2).1, [],
+      (itermEmpty cx loc (it cx loc [] f st).2.2).2) := by rw [term]; rfl
+theorem term_pipe_some (l p r) : term cx loc tr (.pipe l (some p) r) st =
+    (.pipe (it cx loc [] l st).1 (some (pattern cx loc p (it cx (loc.pushVars p.vars) tr r (it cx loc [] l st).2.2).2.2).1)
+        (it cx (loc.pushVars p.vars) tr r (it cx loc [] l st).2.2).1,
+      (it cx (loc.pushVars p.vars) tr r (it cx loc [] l st).2.2).2.1,
+      (pattern cx loc p (it cx (loc.pushVars p.vars) tr r (it cx loc [] l st).2.2).2.2).2) := by
+  rw [term]; rfl
+
+def iteStep (acc : CTerm × Tr × St) (it : TermId × TermId × Tr) : CTerm × Tr × St :=
+  (.ite it.1 it.2.1 (acc.2.2.insert acc.1).1, Tr.union it.2.2 acc.2.1, (acc.2.2.insert acc.1).2)
+def iteBuild (cits : List (TermId × TermId × Tr)) (base : CTerm × Tr × St) : CTerm × Tr × St :=
+  cits.reverse.foldl iteStep base
+
+theorem term_ite_none (its) : term cx loc tr (.ite its none) st =
+    iteBuild (compileIts cx loc tr its st).1 (.id, [], (compileIts cx loc tr its st).2) := by
+  rw [term]; rfl
+theorem term_ite_some (its e) : term cx loc tr (.ite its (some e)) st =
+    iteBuild (compileIts cx loc tr its st).1 (term cx loc tr e (compileIts cx loc tr its st).2) := by
+  rw [term]; rfl
+theorem term_path (f parts) : term cx loc tr (.path f parts) st =
+    (.path (it cx loc [] f st).1 (compileParts cx loc parts (it cx loc [] f st).2.2).1, [],
+      (compileParts cx loc parts (it cx loc [] f st).2.2).2) := by rw [term]; rfl
+theorem term_str (parts) : term cx loc tr (.str none parts) st =
+    ((sumOr (.str "") (compileStrParts cx loc (st.insert .toString).1 parts (st.insert .toString).2).1
+        (compileStrParts cx loc (st.insert .toString).1 parts (st.insert .toString).2).2).1, [],
+     (sumOr (.str "") (compileStrParts cx loc (st.insert .toString).1 parts (st.insert .toString).2).1
+        (compileStrParts cx loc (st.insert .toString).1 parts (st.insert .toString).2).2).2) := by
+  rw [term]
+theorem term_obj (kvs) : term cx loc tr (.obj kvs) st =
+    ((sumOr .objEmpty (compileEntries cx loc kvs st).1 (compileEntries cx loc kvs st).2).1, [],
+     (sumOr .objEmpty (compileEntries cx loc kvs st).1 (compileEntries cx loc kvs st).2).2) := by
+  rw [term]
+theorem term_fold (name xs pat init update rest) :
+    term cx loc tr (.fold name xs pat (init :: update :: rest)) st =
+    (let a := it cx loc [] xs st
+     let cp := pattern cx loc pat a.2.2
+     let b := it cx loc [] init cp.2
+     let c := it cx (loc.pushVars pat.vars) [] update b.2.2
+     match rest with
+     | [] =>
+       if name = "reduce" then (.fold a.1 cp.1 b.1 c.1 .reduce, [], c.2.2)
+       else if name = "foreach" then (.fold a.1 cp.1 b.1 c.1 (.foreach none), [], c.2.2)
+       else (.id, [], c.2.2.fail name)
+     | [proj] =>
+       if name = "foreach" then
+         (.fold a.1 cp.1 b.1 c.1 (.foreach (some (it cx (loc.pushVars pat.vars) tr proj c.2.2).1)),
+           (it cx (loc.pushVars pat.vars) tr proj c.2.2).2.1, (it cx (loc.pushVars pat.vars) tr proj c.2.2).2.2)
+       else (.id, [], c.2.2.fail name)
+     | _ => (.id, [], c.2.2.fail name)) := by
+  rw [term]
+  cases rest with
+  | nil => rfl
+  | cons p rest => cases rest <;> rfl
+
+theorem compileIts_nil : compileIts cx loc tr [] st = ([], st) := by rw [compileIts]
+theorem compileIts_cons (c t rest) : compileIts cx loc tr ((c, t) :: rest) st =
+    (((it cx loc [] c st).1, (it cx loc tr t (it cx loc [] c st).2.2).1, (it cx loc tr t (it cx loc [] c st).2.2).2.1) ::
+        (compileIts cx loc tr rest (it cx loc tr t (it cx loc [] c st).2.2).2.2).1,
+      (compileIts cx loc tr rest (it cx loc tr t (it cx loc [] c st).2.2).2.2).2) := by rw [compileIts]; rfl
+
+theorem pattern_var (x) : pattern cx loc (.var x) st = (.var, st) := by rw [pattern]
+theorem pattern_arr (ps) : pattern cx loc (.arr ps) st = (.idx (patternArr cx loc ps 0 st).1, (patternArr cx loc ps 0 st).2) := by
+  rw [pattern]
+theorem pattern_obj (kps) : pattern cx loc (.obj kps) st = (.idx (patternObj cx loc kps st).1, (patternObj cx loc kps st).2) := by
+  rw [pattern]
+theorem patternArr_nil (i) : patternArr cx loc [] i st = ([], st) := by rw [patternArr]
+theorem patternArr_cons (p ps i) : patternArr cx loc (p :: ps) i st =
+    ((st.terms.length, (pattern cx loc p (st.insert (.int i)).2).1) ::
+        (patternArr cx loc ps (i+1) (pattern cx loc p (st.insert (.int i)).2).2).1,
+      (patternArr cx loc ps (i+1) (pattern cx loc p (st.insert (.int i)).2).2).2) := by rw [patternArr]; rfl
+theorem patternObj_nil : patternObj cx loc [] st = ([], st) := by rw [patternObj]
+theorem patternObj_cons (k p kps) : patternObj cx loc ((k, p) :: kps) st =
+    (((it cx loc [] k st).1, (pattern cx loc p (it cx loc [] k st).2.2).1) ::
+        (patternObj cx loc kps (pattern cx loc p (it cx loc [] k st).2.2).2).1,
+      (patternObj cx loc kps (pattern cx loc p (it cx loc [] k st).2.2).2).2) := by rw [patternObj]; rfl
+
+/-- the optional bound of a slice -/
+def optIt (a : Option Term) : Option TermId × St :=
+  match a with
+  | none => (none, st)
+  | some a => (some (it cx loc [] a st).1, (it cx loc [] a st).2.2)
+
+theorem compileParts_nil : compileParts cx loc [] st = ([], st) := by rw [compileParts]
+theorem compileParts_index (i o rest) : compileParts cx loc ((.index i, o) :: rest) st =
+    ((.index (it cx loc [] i st).1, o) :: (compileParts cx loc rest (it cx loc [] i st).2.2).1,
+      (compileParts cx loc rest (it cx loc [] i st).2.2).2) := by rw [compileParts]; rfl
+theorem compileParts_range (a b o rest) : compileParts cx loc ((.range a b, o) :: rest) st =
+    ((.range (optIt cx loc st a).1 (optIt cx loc (optIt cx loc st a).2 b).1, o) ::
+        (compileParts cx loc rest (optIt cx loc (optIt cx loc st a).2 b).2).1,
+      (compileParts cx loc rest (optIt cx loc (optIt cx loc st a).2 b).2).2) := by
+  cases a <;> cases b <;> (rw [compileParts]; rfl)
+
+theorem compileStrParts_nil (ifmt) : compileStrParts cx loc ifmt [] st = ([], st) := by rw [compileStrParts]
+theorem compileStrParts_lit (ifmt s rest) : compileStrParts cx loc ifmt (.lit s :: rest) st =
+    (.str s :: (compileStrParts cx loc ifmt rest st).1, (compileStrParts cx loc ifmt rest st).2) := by
+  rw [compileStrParts]
+theorem compileStrParts_interp (ifmt f rest) : compileStrParts cx loc ifmt (.interp f :: rest) st =
+    (.pipe (it cx loc [] f st).1 none ifmt :: (compileStrParts cx loc ifmt rest (it cx loc [] f st).2.2).1,
+      (compileStrParts cx loc ifmt rest (it cx loc [] f st).2.2).2) := by rw [compileStrParts]; rfl
+
+theorem compileEntries_nil : compileEntries cx loc [] st = ([], st) := by rw [compileEntries]
+theorem compileEntries_var (x rest) : compileEntries cx loc ((.var x, none) :: rest) st =
+    (let s1 := (st.insert (.str (x.drop 1).toString)).2
+     let s2 := (s1.insert .id).2
+     let s3 := (varC loc x s2).2.set s1.terms.length (varC loc x s2).1
+     (.objSingle st.terms.length s1.terms.length :: (compileEntries cx loc rest s3).1, (compileEntries cx loc rest s3).2)) := by
+  rw [compileEntries]; rfl
+theorem compileEntries_some (k v rest) : compileEntries cx loc ((k, some v) :: rest) st =
+    (.objSingle (it cx loc [] k st).1 (it cx loc [] v (it cx loc [] k st).2.2).1 ::
+        (compileEntries cx loc rest (it cx loc [] v (it cx loc [] k st).2.2).2.2).1,
+      (compileEntries cx loc rest (it cx loc [] v (it cx loc [] k st).2.2).2.2).2) := by
+  cases k <;> (rw [compileEntries]; rfl)
+theorem compileEntries_none (k rest) (hk : ∀ x, k ≠ .var x) : compileEntries cx loc ((k, none) :: rest) st =
+    (let a := it cx loc [] k st
+     let s1 := (a.2.2.insert .id).2
+     let s2 := (s1.insert (.path a.2.2.terms.length [(.index a.1, .essential)])).2
+     (.objSingle a.1 s1.terms.length :: (compileEntries cx loc rest s2).1, (compileEntries cx loc rest s2).2)) := by
+  cases k <;> first | exact absurd rfl (hk _) | (rw [compileEntries] <;> first | rfl | (intro x h; cases h))
+
+/-- one step of `sum_or`: `Math(insert x, Add, insert acc)` -/
+def sumStep (acc : CTerm × St) (x : CTerm) : CTerm × St :=
+  (.math (acc.2.insert x).1 .add ((acc.2.insert x).2.insert acc.1).1, ((acc.2.insert x).2.insert acc.1).2)
+
+theorem sumOr_nil (zero) : sumOr zero [] st = (zero, st) := rfl
+theorem sumOr_one (zero c) : sumOr zero [c] st = (c, st) := rfl
+theorem sumOr_cons2 (zero c c' cs) : sumOr zero (c :: c' :: cs) st = sumStep (sumOr zero (c' :: cs) st) c := by
+  unfold sumOr
+  rw [List.reverse_cons (a := c)]
+  cases h : (c' :: cs).reverse with
+  | nil => simp at h
+  | cons last rest =>
+    simp only [List.cons_append, List.foldl_append, List.foldl_cons, List.foldl_nil]
+    rfl
+
+theorem term_str_fmt (f parts) : term cx loc tr (.str (some f) parts) st =
+    (let cc := callC cx loc f [] [] (st.insert .id).2
+     let s1 := cc.2.2.set st.terms.length cc.1
+     let b := compileStrParts cx loc st.terms.length parts s1
+     ((sumOr (.str "") b.1 b.2).1, [], (sumOr (.str "") b.1 b.2).2)) := by
+  rw [term]; rfl
+
+theorem iteBuild_nil (base) : iteBuild [] base = base := rfl
+theorem iteBuild_cons (x cits base) : iteBuild (x :: cits) base = iteStep (iteBuild cits base) x := by
+  simp [iteBuild, List.foldl_append]
 
 /-! ### frame -/
 
@@ -151,179 +262,301 @@ theorem breakC_ext (x) : Ext st (breakC loc x st).2 := by
   · exact Ext.refl _
   · exact Ext.fail _ _
 
-theorem term_ext_aux : ∀ (N : Nat) (t : Term), sizeOf t < N → inFragment t = true →
-    ∀ (cx : Cx) (loc : Locals) (tr : Tr) (st : St), Ext st (term cx loc tr t st).2.2 := by
+theorem itermEmpty_ext : Ext st (itermEmpty cx loc st).2 := by
+  unfold itermEmpty
+  exact (Ext.set_hole (callC cx loc "!empty" [] [] (st.insert .id).2).1 .id (callC_ext cx loc [] _ "!empty" [])).1
+
+theorem sumStep_ext (acc : CTerm × St) (x : CTerm) : Ext acc.2 (sumStep acc x).2 :=
+  Ext.trans (Ext.insert _ _) (Ext.insert _ _)
+
+theorem sumOr_ext (zero : CTerm) : ∀ (cs : List CTerm) (st : St), Ext st (sumOr zero cs st).2
+  | [], st => Ext.refl _
+  | [_], st => Ext.refl _
+  | c :: c' :: cs, st => by
+    rw [sumOr_cons2]
+    exact Ext.trans (sumOr_ext zero (c' :: cs) st) (sumStep_ext _ _)
+
+theorem iteBuild_ext : ∀ (cits : List (TermId × TermId × Tr)) (base : CTerm × Tr × St), Ext base.2.2 (iteBuild cits base).2.2
+  | [], base => Ext.refl _
+  | x :: cits, base => by
+    rw [iteBuild_cons]
+    exact Ext.trans (iteBuild_ext cits base) (Ext.insert _ _)
+
+/-- compiling `t` only appends to the table, whatever the context -/
+def ExtT (t : Term) : Prop := ∀ (cx : Cx) (loc : Locals) (tr : Tr) (st : St), Ext st (term cx loc tr t st).2.2
+def ExtP (p : Pattern) : Prop := ∀ (cx : Cx) (loc : Locals) (st : St), Ext st (pattern cx loc p st).2
+
+theorem ExtT.it {t : Term} (h : ExtT t) (cx : Cx) (loc : Locals) (tr : Tr) (st : St) : Ext st (it cx loc tr t st).2.2 :=
+  it_ext (fun st' => h cx loc tr st')
+
+section lists
+variable {N : Nat} (ih : ∀ t : Term, sizeOf t < N → ExtT t)
+include ih
+
+theorem itermList_ext_aux : ∀ (ts : List Term), sizeOf ts ≤ N → ∀ cx loc st, Ext st (itermList cx loc ts st).2
+  | [], _, _, _, st => by rw [itermList_nil]; exact Ext.refl _
+  | t :: ts, h, cx, loc, st => by
+    simp at h
+    rw [itermList_cons]
+    exact Ext.trans ((ih t (by omega)).it _ _ _ _) (itermList_ext_aux ts (by omega) _ _ _)
+
+theorem compileIts_ext_aux : ∀ (its : List (Term × Term)), sizeOf its ≤ N → ∀ cx loc tr st, Ext st (compileIts cx loc tr its st).2
+  | [], _, _, _, _, st => by rw [compileIts_nil]; exact Ext.refl _
+  | (c, t) :: its, h, cx, loc, tr, st => by
+    simp at h
+    rw [compileIts_cons]
+    exact Ext.trans ((ih c (by omega)).it _ _ _ _) (Ext.trans ((ih t (by omega)).it _ _ _ _)
+      (compileIts_ext_aux its (by omega) _ _ _ _))
+
+theorem compileDefs_ext_aux : ∀ (ds : List Def), sizeOf ds ≤ N → ∀ cx loc tr st, Ext st (compileDefs cx loc tr ds st).2
+  | [], _, _, _, _, st => by rw [compileDefs_nil]; exact Ext.refl _
+  | .mk name params body :: ds, h, cx, loc, tr, st => by
+    simp at h
+    rw [compileDefs_cons]
+    exact Ext.trans (Ext.set_hole _ .id (ih body (by omega) _ _ _ _)).1 (compileDefs_ext_aux ds (by omega) _ _ _ _)
+
+theorem optIt_ext (a : Option Term) (h : sizeOf a ≤ N) (cx loc st) : Ext st (optIt cx loc st a).2 := by
+  cases a with
+  | none => exact Ext.refl _
+  | some a => simp at h; exact (ih a (by omega)).it _ _ _ _
+
+theorem compileParts_ext_aux : ∀ (ps : List (Part × Opt)), sizeOf ps ≤ N → ∀ cx loc st, Ext st (compileParts cx loc ps st).2
+  | [], _, _, _, st => by rw [compileParts_nil]; exact Ext.refl _
+  | (.index i, o) :: ps, h, cx, loc, st => by
+    simp at h
+    rw [compileParts_index]
+    exact Ext.trans ((ih i (by omega)).it _ _ _ _) (compileParts_ext_aux ps (by omega) _ _ _)
+  | (.range a b, o) :: ps, h, cx, loc, st => by
+    simp at h
+    rw [compileParts_range]
+    exact Ext.trans (optIt_ext ih a (by omega) _ _ _) (Ext.trans (optIt_ext ih b (by omega) _ _ _)
+      (compileParts_ext_aux ps (by omega) _ _ _))
+
+theorem compileStrParts_ext_aux : ∀ (ps : List StrPart), sizeOf ps ≤ N → ∀ cx loc ifmt st, Ext st (compileStrParts cx loc ifmt ps st).2
+  | [], _, _, _, _, st => by rw [compileStrParts_nil]; exact Ext.refl _
+  | .lit s :: ps, h, cx, loc, ifmt, st => by
+    simp at h
+    rw [compileStrParts_lit]
+    exact compileStrParts_ext_aux ps (by omega) _ _ _ _
+  | .interp f :: ps, h, cx, loc, ifmt, st => by
+    simp at h
+    rw [compileStrParts_interp]
+    exact Ext.trans ((ih f (by omega)).it _ _ _ _) (compileStrParts_ext_aux ps (by omega) _ _ _ _)
+
+theorem compileEntries_ext_aux : ∀ (es : List (Term × Option Term)), sizeOf es ≤ N → ∀ cx loc st, Ext st (compileEntries cx loc es st).2
+  | [], _, _, _, st => by rw [compileEntries_nil]; exact Ext.refl _
+  | (k, some v) :: es, h, cx, loc, st => by
+    simp at h
+    rw [compileEntries_some]
+    exact Ext.trans ((ih k (by omega)).it _ _ _ _) (Ext.trans ((ih v (by omega)).it _ _ _ _)
+      (compileEntries_ext_aux es (by omega) _ _ _))
+  | (k, none) :: es, h, cx, loc, st => by
+    simp at h
+    by_cases hk : ∃ x, k = .var x
+    · obtain ⟨x, rfl⟩ := hk
+      rw [compileEntries_var]
+      simp only
+      have e1 : Ext st (st.insert (.str (x.drop 1).toString)).2 := Ext.insert _ _
+      have e2 := (Ext.set_hole (st := (st.insert (.str (x.drop 1).toString)).2)
+        (varC loc x (((st.insert (.str (x.drop 1).toString)).2.insert .id).2)).1 .id (varC_ext loc _ x)).1
+      exact Ext.trans e1 (Ext.trans e2 (compileEntries_ext_aux es (by omega) _ _ _))
+    · rw [compileEntries_none _ _ _ _ _ (fun x hx => hk ⟨x, hx⟩)]
+      simp only
+      exact Ext.trans ((ih k (by omega)).it _ _ _ _) (Ext.trans (Ext.insert _ _) (Ext.trans (Ext.insert _ _)
+        (compileEntries_ext_aux es (by omega) _ _ _)))
+
+theorem pattern_ext_aux : ∀ (M : Nat) (p : Pattern), sizeOf p < M → sizeOf p ≤ N → ExtP p := by
+  intro M
+  induction M with
+  | zero => intro p h; omega
+  | succ M ihM =>
+    intro p hM hN cx loc st
+    cases p with
+    | var x => rw [pattern_var]; exact Ext.refl _
+    | arr ps =>
+      rw [pattern_arr]
+      simp at hM hN
+      have : ∀ (ps' : List Pattern), sizeOf ps' ≤ sizeOf ps → ∀ i st, Ext st (patternArr cx loc ps' i st).2 := by
+        intro ps'
+        induction ps' with
+        | nil => intro _ i st; rw [patternArr_nil]; exact Ext.refl _
+        | cons p' ps' ihp =>
+          intro h i st
+          simp at h
+          rw [patternArr_cons]
+          exact Ext.trans (Ext.insert _ _) (Ext.trans (ihM p' (by omega) (by omega) _ _ _) (ihp (by omega) _ _))
+      exact this ps (Nat.le_refl _) 0 st
+    | obj kps =>
+      rw [pattern_obj]
+      simp at hM hN
+      have : ∀ (kps' : List (Term × Pattern)), sizeOf kps' ≤ sizeOf kps → ∀ st, Ext st (patternObj cx loc kps' st).2 := by
+        intro kps'
+        induction kps' with
+        | nil => intro _ st; rw [patternObj_nil]; exact Ext.refl _
+        | cons kp kps' ihp =>
+          obtain ⟨k, p'⟩ := kp
+          intro h st
+          simp at h
+          rw [patternObj_cons]
+          exact Ext.trans ((ih k (by omega)).it _ _ _ _) (Ext.trans (ihM p' (by omega) (by omega) _ _ _) (ihp (by omega) _))
+      exact this kps (Nat.le_refl _) st
+
+theorem pattern_ext_of (p : Pattern) (h : sizeOf p ≤ N) : ExtP p := pattern_ext_aux ih (sizeOf p + 1) p (by omega) h
+
+end lists
+
+theorem term_ext_aux : ∀ (N : Nat) (t : Term), sizeOf t < N → ExtT t := by
   intro N
   induction N with
   | zero => intro t h; omega
   | succ N ih =>
-    intro t hsz hfr cx loc tr st
+    intro t hsz cx loc tr st
     cases t with
     | id => rw [term_id]; exact Ext.refl _
-    | recurse => simp [inFragment] at hfr
+    | recurse => rw [term_recurse]; exact Ext.refl _
     | num s => rw [term_num]; exact Ext.refl _
     | str fmt parts =>
+      simp at hsz
       cases fmt with
-      | some f => simp [inFragment] at hfr
       | none =>
-        cases parts with
-        | nil => simp [inFragment] at hfr
-        | cons p ps =>
-          cases p with
-          | interp t => simp [inFragment] at hfr
-          | lit s =>
-            cases ps with
-            | nil => rw [term_str1]; exact Ext.insert _ _
-            | cons _ _ => simp [inFragment] at hfr
+        rw [term_str]
+        exact Ext.trans (Ext.insert _ _) (Ext.trans (compileStrParts_ext_aux ih parts (by omega) _ _ _ _) (sumOr_ext _ _ _))
+      | some f =>
+        rw [term_str_fmt]
+        simp only
+        refine Ext.trans ?_ (Ext.trans (compileStrParts_ext_aux ih parts (by omega) _ _ _ _) (sumOr_ext _ _ _))
+        exact (Ext.set_hole _ .id (callC_ext cx loc [] _ f [])).1
     | arr t =>
       cases t with
-      | none => simp [inFragment] at hfr
+      | none => rw [term_arr_none]; exact itermEmpty_ext _ _ _
       | some f =>
-        simp only [inFragment] at hfr
         rw [term_arr]
-        exact it_ext (fun st' => ih f (by simp at hsz; omega) hfr cx loc [] st')
-    | obj kvs => simp [inFragment] at hfr
+        exact (ih f (by simp at hsz; omega)).it _ _ _ _
+    | obj kvs =>
+      simp at hsz
+      rw [term_obj]
+      exact Ext.trans (compileEntries_ext_aux ih kvs (by omega) _ _ _) (sumOr_ext _ _ _)
     | neg f =>
-      simp only [inFragment] at hfr
       rw [term_neg]
-      exact it_ext (fun st' => ih f (by simp at hsz; omega) hfr cx loc [] st')
+      exact (ih f (by simp at hsz; omega)).it _ _ _ _
     | pipe l pat r =>
+      simp at hsz
       cases pat with
       | none =>
-        simp only [inFragment, Bool.and_eq_true] at hfr
         rw [term_pipe_none]
-        exact Ext.trans (it_ext (fun st' => ih l (by simp at hsz; omega) hfr.1 cx loc [] st'))
-          (it_ext (fun st' => ih r (by simp at hsz; omega) hfr.2 cx loc tr st'))
+        exact Ext.trans ((ih l (by omega)).it _ _ _ _) ((ih r (by omega)).it _ _ _ _)
       | some p =>
-        cases p with
-        | var x =>
-          simp only [inFragment, Bool.and_eq_true] at hfr
-          rw [term_pipe_var]
-          exact Ext.trans (it_ext (fun st' => ih l (by simp at hsz; omega) hfr.1 cx loc [] st'))
-            (it_ext (fun st' => ih r (by simp at hsz; omega) hfr.2 cx _ tr st'))
-        | arr _ => simp [inFragment] at hfr
-        | obj _ => simp [inFragment] at hfr
+        simp at hsz
+        rw [term_pipe_some]
+        exact Ext.trans ((ih l (by omega)).it _ _ _ _) (Ext.trans ((ih r (by omega)).it _ _ _ _)
+          (pattern_ext_of ih p (by omega) _ _ _))
     | binop l op r =>
-      simp only [inFragment, Bool.and_eq_true] at hfr
-      have hl := fun (tr' : Tr) st' => ih l (by simp at hsz; omega) hfr.1.2 cx loc tr' st'
-      have hr := fun (tr' : Tr) st' => ih r (by simp at hsz; omega) hfr.2 cx loc tr' st'
+      simp at hsz
+      have hl := ih l (by omega)
+      have hr := ih r (by omega)
       by_cases h1 : op = .comma
-      · subst h1; rw [term_comma]; exact Ext.trans (it_ext (hl tr)) (it_ext (hr tr))
+      · subst h1; rw [term_comma]; exact Ext.trans (hl.it _ _ _ _) (hr.it _ _ _ _)
       · by_cases h2 : op = .alt
-        · subst h2; rw [term_alt]; exact Ext.trans (it_ext (hl [])) (it_ext (hr tr))
-        · rw [term_bop _ _ _ _ _ _ _ h1 h2]; exact Ext.trans (it_ext (hl [])) (it_ext (hr []))
+        · subst h2; rw [term_alt]; exact Ext.trans (hl.it _ _ _ _) (hr.it _ _ _ _)
+        · rw [term_bop _ _ _ _ _ _ _ h1 h2]; exact Ext.trans (hl.it _ _ _ _) (hr.it _ _ _ _)
     | label x f =>
-      simp only [inFragment] at hfr
       rw [term_label]
-      exact it_ext (fun st' => ih f (by simp at hsz; omega) hfr cx _ [] st')
+      exact (ih f (by simp at hsz; omega)).it _ _ _ _
     | brk x => rw [term_brk]; exact breakC_ext _ _ _
     | fold name xs pat args =>
-      cases pat with
-      | arr _ => simp [inFragment] at hfr
-      | obj _ => simp [inFragment] at hfr
-      | var x =>
-        simp only [inFragment, Bool.and_eq_true] at hfr
+      simp at hsz
+      cases args with
+      | nil => rw [term_fold_short0]; exact Ext.fail _ _
+      | cons init args =>
         cases args with
-        | nil => rw [term_fold_short0]; exact Ext.fail _ _
-        | cons init args =>
-          cases args with
-          | nil => rw [term_fold_short1]; exact Ext.fail _ _
-          | cons update rest =>
-            simp only [inFragmentList, Bool.and_eq_true] at hfr
-            have h1 := it_ext (st := st) (fun st' => ih xs (by simp at hsz; omega) hfr.1 cx loc [] st')
-            have h2 := fun st => it_ext (st := st) (fun st' => ih init (by simp at hsz; omega) hfr.2.1 cx loc [] st')
-            have h3 := fun st => it_ext (st := st) (fun st' => ih update (by simp at hsz; omega) hfr.2.2.1 cx (loc.pushBind (.var x)) [] st')
-            have h123 := Ext.trans h1 (Ext.trans (h2 _) (h3 _))
-            rw [term_fold_var]
+        | nil => rw [term_fold_short1]; exact Ext.fail _ _
+        | cons update rest =>
+          simp at hsz
+          have h1 := (ih xs (by omega)).it cx loc [] st
+          have h2 := fun st => pattern_ext_of ih pat (by omega) cx loc st
+          have h3 := fun st => (ih init (by omega)).it cx loc [] st
+          have h4 := fun st => (ih update (by omega)).it cx (loc.pushVars pat.vars) [] st
+          have h1234 := Ext.trans h1 (Ext.trans (h2 _) (Ext.trans (h3 _) (h4 _)))
+          rw [term_fold]
+          simp only
+          cases rest with
+          | nil =>
             simp only
+            split
+            · exact h1234
+            · split
+              · exact h1234
+              · exact Ext.trans h1234 (Ext.fail _ _)
+          | cons proj rest =>
             cases rest with
             | nil =>
+              simp at hsz
               simp only
               split
-              · exact h123
-              · split
-                · exact h123
-                · exact Ext.trans h123 (Ext.fail _ _)
-            | cons proj rest =>
-              cases rest with
-              | nil =>
-                simp only [inFragmentList, Bool.and_eq_true] at hfr
-                simp only
-                split
-                · exact Ext.trans h123 (it_ext (fun st' => ih proj (by simp at hsz; omega) hfr.2.2.2.1 cx _ tr st'))
-                · exact Ext.trans h123 (Ext.fail _ _)
-              | cons _ _ => exact Ext.trans h123 (Ext.fail _ _)
+              · exact Ext.trans h1234 ((ih proj (by omega)).it _ _ _ _)
+              · exact Ext.trans h1234 (Ext.fail _ _)
+            | cons _ _ => exact Ext.trans h1234 (Ext.fail _ _)
     | tryCatch f c =>
+      simp at hsz
       cases c with
-      | none => simp [inFragment] at hfr
+      | none =>
+        rw [term_try_none]
+        exact Ext.trans ((ih f (by omega)).it _ _ _ _) (itermEmpty_ext _ _ _)
       | some c =>
-        simp only [inFragment, Bool.and_eq_true] at hfr
+        simp at hsz
         rw [term_try]
-        exact Ext.trans (it_ext (fun st' => ih f (by simp at hsz; omega) hfr.1 cx loc [] st'))
-          (it_ext (fun st' => ih c (by simp at hsz; omega) hfr.2 cx loc [] st'))
+        exact Ext.trans ((ih f (by omega)).it _ _ _ _) ((ih c (by omega)).it _ _ _ _)
     | ite its els =>
-      cases its with
-      | nil => simp [inFragment] at hfr
-      | cons ct rest =>
-        obtain ⟨c, t⟩ := ct
-        cases rest with
-        | cons _ _ => cases els <;> simp [inFragment] at hfr
-        | nil =>
-          cases els with
-          | none =>
-            simp only [inFragment, Bool.and_eq_true] at hfr
-            rw [term_ite1_none]
-            exact Ext.trans (it_ext (fun st' => ih c (by simp at hsz; omega) hfr.1 cx loc [] st'))
-              (Ext.trans (it_ext (fun st' => ih t (by simp at hsz; omega) hfr.2 cx loc tr st')) (Ext.insert _ _))
-          | some e =>
-            simp only [inFragment, Bool.and_eq_true] at hfr
-            rw [term_ite1_some]
-            exact Ext.trans (it_ext (fun st' => ih c (by simp at hsz; omega) hfr.1.1 cx loc [] st'))
-              (Ext.trans (it_ext (fun st' => ih t (by simp at hsz; omega) hfr.1.2 cx loc tr st'))
-                (Ext.trans (ih e (by simp at hsz; omega) hfr.2 cx loc tr _) (Ext.insert _ _)))
+      simp at hsz
+      cases els with
+      | none =>
+        rw [term_ite_none]
+        exact Ext.trans (compileIts_ext_aux ih its (by omega) cx loc tr st) (iteBuild_ext _ (.id, [], _))
+      | some e =>
+        simp at hsz
+        rw [term_ite_some]
+        exact Ext.trans (compileIts_ext_aux ih its (by omega) cx loc tr st)
+          (Ext.trans (ih e (by omega) _ _ _ _) (iteBuild_ext _ _))
     | defs ds f =>
-      simp only [inFragment, Bool.and_eq_true] at hfr
+      simp at hsz
       rw [term_defs]
-      have hds : ∀ (ds' : List Def), (∀ d ∈ ds', sizeOf d < sizeOf ds + 1) → inFragmentDefs ds' = true →
-          ∀ loc st, Ext st (compileDefs cx loc tr ds' st).2 := by
-        intro ds'
-        induction ds' with
-        | nil => intro _ _ loc st; rw [compileDefs_nil]; exact Ext.refl _
-        | cons d ds' ihd =>
-          intro hsz' hfr' loc st
-          obtain ⟨name, params, body⟩ := d
-          simp only [inFragmentDefs, Bool.and_eq_true] at hfr'
-          rw [compileDefs_cons]
-          have hb := ih body (by have := hsz' _ (List.mem_cons_self); simp at this hsz; omega) hfr'.1 cx
-            (loc.pushParent name (sigOf params) st.terms.length) (Tr.insert tr st.terms.length) (st.insert .id).2
-          exact Ext.trans (Ext.set_hole _ .id hb).1
-            (ihd (fun d hd => hsz' d (List.mem_cons_of_mem _ hd)) hfr'.2 _ _)
-      exact Ext.trans (hds ds (fun d hd => by have := List.sizeOf_lt_of_mem hd; omega) hfr.1 loc st)
-        (ih f (by simp at hsz; omega) hfr.2 cx _ tr _)
+      exact Ext.trans (compileDefs_ext_aux ih ds (by omega) _ _ _ _) (ih f (by omega) _ _ _ _)
     | call name args =>
-      simp only [inFragment, Bool.and_eq_true] at hfr
+      simp at hsz
       rw [term_call]
-      have hargs : ∀ (as : List Term), (∀ a ∈ as, sizeOf a < N) → inFragmentList as = true →
-          ∀ st, Ext st (itermList cx loc as st).2 := by
-        intro as
-        induction as with
-        | nil => intro _ _ st; rw [itermList_nil]; exact Ext.refl _
-        | cons a as iha =>
-          intro hsz' hfr' st
-          simp only [inFragmentList, Bool.and_eq_true] at hfr'
-          rw [itermList_cons]
-          exact Ext.trans (it_ext (fun st' => ih a (hsz' a List.mem_cons_self) hfr'.1 cx loc [] st'))
-            (iha (fun a ha => hsz' a (List.mem_cons_of_mem _ ha)) hfr'.2 _)
-      have h1 := hargs args (fun a ha => by have := List.sizeOf_lt_of_mem ha; simp at hsz; omega) hfr.2 st
+      have h1 := itermList_ext_aux ih args (by omega) cx loc st
       split
       · exact Ext.trans h1 (Ext.fail _ _)
       · exact Ext.trans h1 (callC_ext _ _ _ _ _ _)
     | var x => rw [term_var]; exact varC_ext _ _ _
-    | path f parts => simp [inFragment] at hfr
+    | path f parts =>
+      simp at hsz
+      rw [term_path]
+      exact Ext.trans ((ih f (by omega)).it _ _ _ _) (compileParts_ext_aux ih parts (by omega) _ _ _)
 
-/-- frame lemma: compiling a term of the fragment only appends to the table -/
-theorem term_ext {t : Term} (h : inFragment t = true) (cx : Cx) (loc : Locals) (tr : Tr) (st : St) :
+/-- frame lemma: compiling a term — any term of the language — only appends to the table -/
+theorem term_ext (t : Term) (cx : Cx) (loc : Locals) (tr : Tr) (st : St) :
     Ext st (term cx loc tr t st).2.2 :=
-  term_ext_aux (sizeOf t + 1) t (by omega) h cx loc tr st
+  term_ext_aux (sizeOf t + 1) t (by omega) cx loc tr st
+
+theorem it_extA {cx loc tr t st} : Ext st (it cx loc tr t st).2.2 := it_ext (fun st' => term_ext t _ _ _ st')
+
+/-- the list compilers only append, too -/
+theorem itermList_extA (cx loc) (ts : List Term) (st) : Ext st (itermList cx loc ts st).2 :=
+  itermList_ext_aux (N := sizeOf ts) (fun t _ => term_ext t) ts (Nat.le_refl _) cx loc st
+theorem compileIts_extA (cx loc tr) (its : List (Term × Term)) (st) : Ext st (compileIts cx loc tr its st).2 :=
+  compileIts_ext_aux (N := sizeOf its) (fun t _ => term_ext t) its (Nat.le_refl _) cx loc tr st
+theorem compileDefs_extA (cx loc tr) (ds : List Def) (st) : Ext st (compileDefs cx loc tr ds st).2 :=
+  compileDefs_ext_aux (N := sizeOf ds) (fun t _ => term_ext t) ds (Nat.le_refl _) cx loc tr st
+theorem compileParts_extA (cx loc) (ps : List (Part × Opt)) (st) : Ext st (compileParts cx loc ps st).2 :=
+  compileParts_ext_aux (N := sizeOf ps) (fun t _ => term_ext t) ps (Nat.le_refl _) cx loc st
+theorem compileStrParts_extA (cx loc ifmt) (ps : List StrPart) (st) : Ext st (compileStrParts cx loc ifmt ps st).2 :=
+  compileStrParts_ext_aux (N := sizeOf ps) (fun t _ => term_ext t) ps (Nat.le_refl _) cx loc ifmt st
+theorem compileEntries_extA (cx loc) (es : List (Term × Option Term)) (st) : Ext st (compileEntries cx loc es st).2 :=
+  compileEntries_ext_aux (N := sizeOf es) (fun t _ => term_ext t) es (Nat.le_refl _) cx loc st
+theorem pattern_extA (cx loc) (p : Pattern) (st) : Ext st (pattern cx loc p st).2 :=
+  pattern_ext_of (N := sizeOf p) (fun t _ => term_ext t) p (Nat.le_refl _) cx loc st
+theorem optIt_extA (cx loc st) (a : Option Term) : Ext st (optIt cx loc st a).2 :=
+  optIt_ext (N := sizeOf a) (fun t _ => term_ext t) a (Nat.le_refl _) cx loc st
 
 end Jaq.Core
